@@ -18,7 +18,7 @@ use crate::props::Prop;
 pub const PROP: Prop = Prop {
     id: "C16",
     level: "exploration",
-    rule: "operation x length x shape x builder, one child process per case on a 2 MiB thread stack in the plain optimised profile: operations = parse from str/slice/reader, datum parse from reader (and from str at n <= 10^5), to_string, Display, to_writer, Cons::to_vec/into_vec/to_ref_vec, Value::to_vec/to_ref_vec, iter, list_iter, into_iter, get(n-1), [usize::MAX], is_list, is_dotted_list, clone, ==, drop, Datum clone/==/drop/list_iter/value conversion, serde to_value/from_value/to_string/from_str of Vec<u32>; lengths drawn log-uniformly from [2*10^5, 4*10^6] (two draws per operation in the quick tier, eight plus one 10^7 in the thorough tier); shapes proper, dotted and association list; a list spelled as a chain of n dotted pairs (must be refused by the nesting limit, in both APIs); comparisons of equal lists, of lists differing only at the end, at every position and at every second position; deserialisation of long inputs through a skipped unknown struct field, IgnoredAny, wrong-kind targets, a long vector and a long improper list; element kinds number, #nil, (), boolean, symbol, string, character, float, keyword, byte vector, empty vector and seven long runs of changing kind (drawn per case in the optimised profile, and ALL kinds under the element-touching operations drop, drop of a replaced tail, drop of a partly consumed into_iter, clone, ==, print, parse, parse failing at end of input with n elements collected, to_vec, Datum drop/clone/==/conversion in the unoptimised profile at 1-2*10^5 elements); builders parser, constructors and Serde. The child verifies its result against a model (length, last element, printed text). A child killed by a signal is a violation with signature op=<operation>. Every case is non-trivial: 2*10^5 elements is far beyond what per-element recursion survives on 2 MiB; distinct by (op, n, shape, builder)",
+    rule: "operation x length x shape x builder, one child process per case on a 2 MiB thread stack in the plain optimised profile: operations = parse from str/slice/reader, datum parse from reader (and from str at n <= 10^5), to_string, Display, to_writer, Cons::to_vec/into_vec/to_ref_vec, Value::to_vec/to_ref_vec, iter, list_iter, into_iter, get(n-1), [usize::MAX], is_list, is_dotted_list, clone, ==, drop, Datum clone/==/drop/list_iter/value conversion, serde to_value/from_value/to_string/from_str of Vec<u32>; lengths drawn log-uniformly from [2*10^5, 4*10^6] (two draws per operation in the quick tier, eight plus one 10^7 in the thorough tier); shapes proper, dotted and association list; a list spelled as a chain of n dotted pairs (must be refused by the nesting limit, in both APIs); clone_from into an existing long list (Cons and Value); comparisons of equal lists, of lists differing only at the end, at every position and at every second position; deserialisation of long inputs through a skipped unknown struct field, IgnoredAny, wrong-kind targets, a long vector and a long improper list; element kinds number, #nil, (), boolean, symbol, string, character, float, keyword, byte vector, empty vector and seven long runs of changing kind (drawn per case in the optimised profile, and ALL kinds under the element-touching operations drop, drop of a replaced tail, drop of a partly consumed into_iter, clone, ==, print, parse, parse failing at end of input with n elements collected, to_vec, Datum drop/clone/==/conversion in the unoptimised profile at 1-2*10^5 elements); builders parser, constructors and Serde. The child verifies its result against a model (length, last element, printed text). A child killed by a signal is a violation with signature op=<operation>. Every case is non-trivial: 2*10^5 elements is far beyond what per-element recursion survives on 2 MiB; distinct by (op, n, shape, builder)",
     assumptions: &[
         "stack independence is shown for the sampled lengths, on this platform, for the optimised (release-like) profile without debug assertions: frame sizes and tail-call elimination are compiler artefacts",
         "a watchdog expiry (120 s) is reported as inconclusive, never as a violation",
@@ -447,6 +447,21 @@ fn run_op(spec: &Spec) -> Json {
                     std::mem::forget(w);
                     r
                 }
+                "cons-clone_from" | "value-clone_from" => {
+                    // clone into an existing long list (the destination's cells may be reused)
+                    let mut dst = Value::append((0..n + 3).map(|_| Value::symbol("old")), Value::symbol("old-end"));
+                    if op == "cons-clone_from" {
+                        match (dst.as_cons_mut(), v.as_cons()) {
+                            (Some(d), Some(s)) => d.clone_from(s),
+                            _ => return json!({"ok": false}),
+                        }
+                    } else {
+                        dst.clone_from(&v);
+                    }
+                    let r = verify(&dst, n, shape);
+                    std::mem::forget(dst);
+                    r
+                }
                 "ne-everywhere" | "ne-half" => {
                     // the other list differs at every (every second) position and in its tail
                     let step = if op == "ne-half" { 2 } else { 1 };
@@ -572,7 +587,7 @@ pub fn judge(s: &Spec, out: &ChildOutcome) -> Result<CaseResult, String> {
 const VALUE_OPS: &[&str] = &[
     "print-to_string", "print-display", "print-to_writer", "cons-to_vec", "cons-into_vec", "cons-to_ref_vec", "value-to_vec",
     "value-to_ref_vec", "iter-count", "list_iter-count", "into_iter-count", "get-last", "index-max", "index-name", "is_list",
-    "is_dotted_list", "clone", "eq", "ne-last", "ne-everywhere", "ne-half", "drop", "drop-tail", "into_iter-partial-drop",
+    "is_dotted_list", "clone", "cons-clone_from", "value-clone_from", "eq", "ne-last", "ne-everywhere", "ne-half", "drop", "drop-tail", "into_iter-partial-drop",
 ];
 const PARSE_OPS: &[&str] = &["parse-str", "parse-slice", "parse-reader", "parse-iter", "parse-error-discard", "parse-dotted-chain"];
 const DATUM_OPS: &[&str] = &[
